@@ -196,7 +196,7 @@ def strhex2float(x, signed=True, n_word=None, n_frac=None, return_sizes=False):
     else:
         return val
 
-def str2num(x, signed=True, n_word=None, n_frac=None, base=10, return_sizes=False):
+def str2num(x, signed=True, n_word=None, n_frac=None, base=10, return_sizes=False, raw=False):
     if isinstance(x, (list, tuple)):
         x = list(x)     # convert a copy: never write into the caller's container (tuples are accepted too)
         _signed_max = False
@@ -206,7 +206,7 @@ def str2num(x, signed=True, n_word=None, n_frac=None, base=10, return_sizes=Fals
         for idx, v in enumerate(x):
             if isinstance(v, np.ndarray):
                 v = v.tolist()      # (bin() / hex() of a 2-D Fxp return a list of string arrays)
-            x[idx], _signed, _n_word, _n_frac = str2num(v, signed, n_word, n_frac, base, return_sizes=True)
+            x[idx], _signed, _n_word, _n_frac = str2num(v, signed, n_word, n_frac, base, return_sizes=True, raw=raw)
 
             _signed = _signed_max or _signed
             if _n_word is not None:
@@ -227,6 +227,10 @@ def str2num(x, signed=True, n_word=None, n_frac=None, base=10, return_sizes=Fals
             x = _sign + '0b' + _body[(2 if _body[:1] == '0' else 1):]
         elif _body[:2].lower() in ('0x', '0h') or _body[:1] in ('x', 'X', 'h', 'H'):
             x = _sign + '0x' + _body[(2 if _body[:1] == '0' else 1):]
+
+        if raw and (base == 2 or 'b' in x[:2] or base == 16 or 'x' in x[:2]):
+            # a raw code rendered with the binary point (bin(frac_dot=True)): the digits are the code, the point is layout
+            x = x.replace('.', '')
 
         if base == 2 or 'b' in x[:2]:
             # binary
